@@ -70,66 +70,55 @@ pub fn number_to_string(n: f64) -> String {
         return "0".to_string();
     }
 
-    let abs_n = n.abs();
-
-    // Check if it's an integer that can be represented exactly
-    if math::trunc(n) == n && abs_n < 1e21 {
-        // Format as integer (no decimal point)
-        return format!("{:.0}", n);
-    }
-
-    // Very small numbers (absolute value < 1e-6) use exponential notation
-    // Very large numbers (absolute value >= 1e21) use exponential notation
-    if !(1e-6..1e21).contains(&abs_n) {
-        // Use exponential notation
-        format_exponential(n)
-    } else {
-        // Use decimal notation
-        // We need to produce the shortest representation that round-trips
-        format_decimal(n)
-    }
-}
-
-/// Format a number in exponential notation matching JavaScript's output
-fn format_exponential(n: f64) -> String {
-    // Get the exponent
-    let abs_n = n.abs();
-    let exponent = math::floor(math::log10(abs_n)) as i32;
-    let mantissa = n / math::powi(10_f64, exponent);
-
-    // Format mantissa - remove trailing zeros after decimal point
-    let mantissa_str = if math::trunc(mantissa) == mantissa {
-        format!("{:.0}", mantissa)
-    } else {
-        let s = format!("{}", mantissa);
-        // Remove trailing zeros but keep at least one digit after decimal
-        s.trim_end_matches('0').to_string()
+    // `{:e}` yields the shortest digit string that reads back to the same double, as
+    // `d[.ddd]e<exp>`: take the digits and the decimal exponent from it and lay them out
+    // the way Number::toString prescribes (point position p = exp + 1, k digits).
+    let sci = format!("{:e}", n.abs());
+    let (mantissa, exp) = match sci.split_once('e') {
+        Some(parts) => parts,
+        None => return sci,
     };
+    let digits: String = mantissa.chars().filter(|c| *c != '.').collect();
+    let exp: i32 = exp.parse().unwrap_or(0);
+    let k = digits.len() as i32;
+    let p = exp + 1;
 
-    // Format exponent with sign
-    if exponent >= 0 {
-        format!("{}e+{}", mantissa_str, exponent)
-    } else {
-        format!("{}e{}", mantissa_str, exponent)
+    let mut out = String::new();
+    if n < 0.0 {
+        out.push('-');
     }
-}
-
-/// Format a number in decimal notation matching JavaScript's output
-fn format_decimal(n: f64) -> String {
-    // Use Rust's default formatting which handles most cases
-    let s = format!("{}", n);
-
-    // Remove trailing zeros after decimal point (but keep at least one digit)
-    if s.contains('.') {
-        let trimmed = s.trim_end_matches('0');
-        if trimmed.ends_with('.') {
-            format!("{}0", trimmed)
-        } else {
-            trimmed.to_string()
+    if k <= p && p <= 21 {
+        // integer: digits followed by p - k zeros
+        out.push_str(&digits);
+        for _ in 0..(p - k) {
+            out.push('0');
         }
+    } else if 0 < p && p <= 21 {
+        // decimal point inside the digits
+        let (int_part, frac_part) = digits.split_at(p as usize);
+        out.push_str(int_part);
+        out.push('.');
+        out.push_str(frac_part);
+    } else if -6 < p && p <= 0 {
+        // 0.000ddd
+        out.push_str("0.");
+        for _ in 0..(-p) {
+            out.push('0');
+        }
+        out.push_str(&digits);
     } else {
-        s
+        // exponent notation: d[.ddd]e+x / e-x
+        let (first, rest) = digits.split_at(1);
+        out.push_str(first);
+        if !rest.is_empty() {
+            out.push('.');
+            out.push_str(rest);
+        }
+        out.push('e');
+        out.push(if exp >= 0 { '+' } else { '-' });
+        out.push_str(&exp.abs().to_string());
     }
+    out
 }
 
 /// ECMAScript ToUint32: truncate toward zero, then wrap modulo 2^32.
